@@ -19,7 +19,12 @@ Definition rank_rec : Type := nat * list nat * nat * list Z * list (nat * list n
 Inductive hop := HSet (e : Z) | HIter (rr : rank_rec).
 Definition hist_t : Type := nat * list hop.
 
-Definition case_t : Type := kcfg * list rank_rec * list nat * hist_t.
+(* a sampler constructed with (possibly default) rank / world_size arguments in a process with a history:
+   the events of the process before the construction (C12.Model.pg_event), the rank and world_size arguments
+   (None = default), the epoch set, and what len(sampler) / list(sampler) showed *)
+Definition pg_rec : Type := list pg_event * option nat * option nat * Z * rank_rec.
+
+Definition case_t : Type := kcfg * list rank_rec * list nat * hist_t * list pg_rec.
 
 Definition replay (ds : list (nat * list nat)) : oracle := fun _ h _ => snd (nth (length h) ds (0, [])).
 Definition code_of (o : outcome (list nat)) : nat := match o with Ok _ => 0 | AssertFail => 1 | Runaway => 2 end.
@@ -93,6 +98,27 @@ Definition hist_agrees (k : kcfg) (h : hist_t) : bool :=
   let ms := model_object k recs rank (ops_of hs) in
   (length ms =? length recs) && forallb (fun '(m, rr) => run_agrees m rr) (combine ms recs).
 
+(* --- samplers built with default arguments under a process-group history --- *)
+Definition built_agrees (k : kcfg) (p : pg_rec) : bool :=
+  let '(evs, rank, world, e, rr) := p in
+  let '(_, _, _, _, ds, rnd) := rr in
+  let g := pg_after pg_fresh evs in
+  match k with
+  | KCB c => run_agrees (cb_built (cb_set_epoch c e) rank world g (replay ds)) rr
+  | KW c => run_agrees (w_built (w_set_epoch c e) rank world g (replay ds)) rr
+  | KSemi c =>
+      let '(r, _) := resolve_rank_world rank world g in
+      let c' := se_set_epoch c e in
+      if semi_ctor_ok c' then
+        match rnd with
+        | [rank_seed; epoch_seed] =>
+            run_agrees (semi_built c' rank world g
+                          (fun x => if Z.eqb x (Z.of_nat r) then rank_seed else epoch_seed) (replay ds)) rr
+        | _ => false
+        end
+      else run_agrees (semi_built c' rank world g (fun _ => 0%Z) (replay ds)) rr
+  end.
+
 Definition cfg_epoch (k : kcfg) : Z :=
   match k with KCB c => cb_epoch c | KSemi c => se_epoch c | KW c => w_epoch c end.
 
@@ -148,10 +174,10 @@ Definition spec_holds (k : kcfg) (recs : list rank_rec) (G : list nat) (h : hist
    implementation; 2 = the spec is false of the implementation's output
    (whether or not the model agrees) *)
 Definition check (t : case_t) : nat :=
-  let '(k, recs, G, h) := t in
+  let '(k, recs, G, h, pgs) := t in
   if forallb (fun '(code, _, _, _, _, _) => code =? 0) recs && negb (spec_holds k recs G h) then 2
   else if negb ((length recs =? world k) &&
                 forallb (fun '(rank, rr) => rank_agrees k rank rr) (combine (seq 0 (length recs)) recs) &&
-                hist_agrees k h)
+                hist_agrees k h && forallb (built_agrees k) pgs)
   then 1
   else 0.
